@@ -697,6 +697,36 @@ pub fn check(prop: &str, tier: &str) -> Option<Report> {
         }
         fams.push((Family { name: "the second input of a combining operator is subscribed with a subscriber that has already ended".into(), pipelines: pd, worlds: Arc::new(wd), oracles: oracle.clone() }, 2));
       }
+      // a trigger that fires while it is being subscribed and does not end by itself (a Behavior/ReplaySubject
+      // that holds an item): take_until ends - and skip_until / sample go on - with the trigger's pipeline
+      // sitting in a subject that outlives the subscription (seed C17-l: the trigger's subscription was parked
+      // in a slot that is filled only after the trigger's subscribe has returned)
+      {
+        let mut wt = vec![];
+        for k in [SrcKind::BehaviorSubject, SrcKind::ReplaySubject] {
+          for unsub in [false, true] {
+            for end in [None, Some(Ev::C), Some(Ev::E(5))] {
+              let mut acts = vec![Act::Emit(1, Ev::n(11)), Act::Sub(0), Act::Emit(0, Ev::n(1)), Act::Emit(1, Ev::n(12))];
+              if unsub {
+                acts.push(Act::Unsub(0));
+              }
+              acts.push(Act::Emit(0, Ev::n(2)));
+              if let Some(e) = &end {
+                acts.push(Act::Emit(0, e.clone()));
+              }
+              acts.push(Act::Emit(1, Ev::n(13)));
+              wt.push(World { srcs: vec![SrcKind::Hot, k.clone()], acts: acts.clone() });
+              wt.push(World { srcs: vec![SrcKind::Subject, k.clone()], acts });
+            }
+          }
+        }
+        let mut pt = vec![];
+        for m in [Op::TakeUntil, Op::SkipUntil, Op::Sample] {
+          pt.push(Node::opx(m.clone(), Node::Src(0), vec![Node::Src(1)]));
+          pt.push(Node::opx(m.clone(), Node::Src(0), vec![Node::op(Op::Map(MapF::Inc), Node::Src(1))]));
+        }
+        fams.push((Family { name: "a trigger that fires while it is being subscribed (a subject that holds an item)".into(), pipelines: pt, worlds: Arc::new(wt), oracles: oracle.clone() }, 2));
+      }
       fams.extend(connectable_families(&w_noend, oracle.clone()));
       fams.extend(self_unsub_families(th, &last_pos, oracle.clone()));
       if prop == "C05" {
@@ -796,6 +826,18 @@ pub fn multi_families(th: bool, rude: bool, oracles: Vec<Oracle>) -> Vec<(Family
   fams.push((Family { name: "2 hot sources, all interleavings".into(), pipelines: value_blind.iter().map(two).collect(), worlds: w_hot2.clone(), oracles: oracles.clone() }, 1));
   fams.push((Family { name: "sequence_equal/amb/zip, 2 hot sources over one alphabet".into(), pipelines: vec![two(&Op::SequenceEqual), two(&Op::Amb), two(&Op::Zip)], worlds: w_hot2_same.clone(), oracles: oracles.clone() }, 1));
   fams.push((Family { name: "2 sources, cold and mixed".into(), pipelines: ops.iter().map(two).collect(), worlds: w_mixed.clone(), oracles: oracles.clone() }, 1));
+  // ---- one source: the list of further inputs is empty (the statement says 1..4 sources; seed C03-l:
+  // a short cut for `sequence_equal(&[])` that never subscribes the source)
+  let mut w_one = vec![];
+  for a in &per_src {
+    w_one.push(World { srcs: vec![SrcKind::Cold { scripts: vec![a.clone()], polite: !rude }], acts: vec![Act::Sub(0)] });
+    let mut acts = vec![Act::Sub(0)];
+    acts.extend(a.iter().map(|e| Act::Emit(0, e.clone())));
+    w_one.push(World { srcs: vec![SrcKind::Hot], acts });
+  }
+  let one_ops: Vec<Op> = ops.iter().filter(|o| o.n_extra().contains(&1) && *o.n_extra().end() > 1).cloned().collect();
+  let one = |op: &Op| Node::opx(op.clone(), Node::Src(0), vec![]);
+  fams.push((Family { name: "1 source: the list of further inputs is empty".into(), pipelines: one_ops.iter().map(one).collect(), worlds: Arc::new(w_one), oracles: oracles.clone() }, 1));
   // ---- three sources (reduced alphabet)
   let small: Vec<Vec<Ev>> = if rude {
     strings(&[Ev::n(1), Ev::E(5), Ev::C], 2).into_iter().filter(|s| s.len() <= 2).collect()
